@@ -194,6 +194,9 @@ pub fn statement_for(q: &J, jpath: &str, tdef: &str) -> String {
     match q["join"].as_str().unwrap() {
         // (ON a.x = b.y names the two sides in either order: statements without WHERE write the joined side first)
         "inner" => s += &format!(" INNER JOIN u::{} ON {}", quote(jpath), if tdef == "numjoin" { "t.v = u.w" } else if is_none(&q["where"]) { "u.k = t.k" } else { "t.k = u.k" }),
+        "badfile" => s += &format!(" INNER JOIN u::{} ON t.k = u.k", quote(&format!("{}.does-not-exist", jpath))),
+        "dirfile" => s += &format!(" INNER JOIN u::{} ON t.k = u.k", quote(std::path::Path::new(jpath).parent().unwrap().to_str().unwrap())),
+        "badcol" => s += &format!(" INNER JOIN u::{} ON t.k = u.nosuch", quote(jpath)),
         "outer" => s += &format!(" OUTER JOIN u::{} ON {}", quote(jpath), if tdef == "numjoin" { "u.w = t.v" } else { "t.k = u.k" }),
         _ => {}
     }
@@ -209,7 +212,10 @@ pub fn statement_for(q: &J, jpath: &str, tdef: &str) -> String {
 }
 
 pub fn table_defs(tdef: &str) -> String {
-    let (kmod, vmod) = match tdef { "knn" => (" NOT NULL", ""), "vdef" => ("", " DEFAULT 7"), "bothnn" => (" NOT NULL", " NOT NULL"), _ => ("", "") };
+    let (kmod, vmod) = match tdef { "knn" => (" NOT NULL", ""), "vdef" => ("", " DEFAULT 7"), "bothnn" => (" NOT NULL", " NOT NULL"), "nndef" => (" NOT NULL", " DEFAULT 7"), _ => ("", "") };
+    if tdef == "udef" {
+        return "CREATE TABLE t(line = 'k=([a-z]+)? v=(-?[0-9]+)?', line[1] => k TEXT, line[2] => v INT);\nCREATE TABLE u(jl = 'k=([a-z]+)? v=(-?[0-9]+)?', jl[1] => k TEXT, jl[2] => w INT DEFAULT 7);".to_string();
+    }
     let (a, z) = if tdef == "anch" { ("^", "$") } else { ("", "") };
     if tdef == "vreal" {
         return "CREATE TABLE t(line = 'k=([a-z]+)? v=(-?[0-9.]+)?', line[1] => k TEXT, line[2] => v REAL);\nCREATE TABLE u(jl = 'k=([a-z]+)? v=(-?[0-9]+)?', jl[1] => k TEXT, jl[2] => w INT);".to_string();
